@@ -103,6 +103,22 @@ fn decay_body<const N: usize, const K: usize, const L: usize, const CAP2: u64>()
         }
         vcheck!(c.len() == N, "acceptance counters resized");
     }
+    // native replay only: the same validator set and the same random source give the same committee
+    // (under Kani any use of ambient randomness inside sampling_strategy.rs is reported where it happens)
+    #[cfg(not(kani))]
+    {
+        let mut seed = 1u64;
+        while seed <= 64 {
+            let a = s.sample_quorum(&mut SweepRng(seed));
+            let mut rep = 0;
+            while rep < 8 {
+                let b = s.sample_quorum(&mut SweepRng(seed));
+                vcheck!(a == b, "sampling consults ambient randomness: the committee is not a function of the validator set and the supplied random source only");
+                rep += 1;
+            }
+            seed += 1;
+        }
+    }
     vcover!(rng.pos > 2 * K, "a candidate was rejected");
     vcover!(count_of(&q, 0) == cap.min(K as u64), "validator 0 fills its cap");
     std::mem::forget(s);
